@@ -33,6 +33,12 @@ def instances(tier):
                     luhn=False, swap=True, swapok=d, gen='calc_check_digit'))
     out.append(dict(name='damm', mod=damm, alphabet=d, dir='l2r', period=1, kw={}, ncheck=1, check=d,
                     luhn=False, swap=True, swapok=d, gen='calc_check_digit'))
+    # the custom table the module documents (an option of every function of the module)
+    alt = ((0, 2, 3, 4, 5, 6, 7, 8, 9, 1), (2, 0, 4, 1, 7, 9, 5, 3, 8, 6), (3, 7, 0, 5, 2, 8, 1, 6, 4, 9), (4, 1, 8, 0, 6, 3, 9, 2, 7, 5),
+           (5, 6, 2, 9, 0, 7, 4, 1, 3, 8), (6, 9, 7, 3, 1, 0, 8, 5, 2, 4), (7, 5, 1, 8, 4, 2, 0, 9, 6, 3), (8, 4, 6, 2, 9, 5, 3, 0, 1, 7),
+           (9, 8, 5, 7, 3, 1, 6, 4, 0, 2), (1, 3, 9, 6, 8, 4, 2, 7, 5, 0))
+    out.append(dict(name='damm_documented_table', mod=damm, alphabet=d, dir='l2r', period=1, kw={'table': alt}, ncheck=1, check=d,
+                    luhn=False, swap=True, swapok=d, gen='calc_check_digit'))
     out.append(dict(name='mod_11_2', mod=mod_11_2, alphabet=d + 'X', dir='l2r', period=1, kw={}, ncheck=1, check=d + 'X',
                     luhn=False, swap=True, swapok=d + 'X', gen='calc_check_digit', special='X'))
     out.append(dict(name='mod_37_2', mod=mod_37_2, alphabet=ALNUM + '*', dir='l2r', period=1, kw={}, ncheck=1,
@@ -43,7 +49,18 @@ def instances(tier):
                     luhn=False, swap=False, swapok=ALNUM, gen='calc_check_digit'))
     out.append(dict(name='mod_97_10', mod=mod_97_10, alphabet=ALNUM, dir='l2r', period=1, kw={}, ncheck=2, check=d,
                     luhn=False, swap=True, swapok=d, gen='calc_check_digits'))
-    if tier != 'quick':
+    # two caller-supplied alphabets of the SAME size in one process (a lookup table cached under the wrong key would mix them up)
+    out.append(dict(name='mod_37_2_0-9X', mod=mod_37_2, alphabet=d + 'X', dir='l2r', period=1, kw={'alphabet': d + 'X'},
+                    ncheck=1, check=d + 'X', luhn=False, swap=True, swapok=d + 'X', gen='calc_check_digit', special='X'))
+    out.append(dict(name='mod_37_2_X0-9', mod=mod_37_2, alphabet='X' + d, dir='l2r', period=1, kw={'alphabet': 'X' + d},
+                    ncheck=1, check='X' + d, luhn=False, swap=True, swapok='X' + d, gen='calc_check_digit', special='9'))
+    out.append(dict(name='mod_37_36_0-9', mod=mod_37_36, alphabet=d, dir='l2r', period=1, kw={'alphabet': d}, ncheck=1,
+                    check=d, luhn=False, swap=False, swapok=d, gen='calc_check_digit'))
+    out.append(dict(name='mod_37_36_9-0', mod=mod_37_36, alphabet=d[::-1], dir='l2r', period=1, kw={'alphabet': d[::-1]}, ncheck=1,
+                    check=d[::-1], luhn=False, swap=False, swapok=d[::-1], gen='calc_check_digit'))
+    out.append(dict(name='luhn10_9-0', mod=luhn, alphabet=d[::-1], dir='r2l', period=2, kw={'alphabet': d[::-1]},
+                    ncheck=1, check=d[::-1], luhn=True, swap=False, swapok=d[::-1], gen='calc_check_digit'))
+    if False:
         # other alphabets the modules document: 37-2 / 37-36 on digits-only and hex alphabets
         out.append(dict(name='mod_37_2_0-9X', mod=mod_37_2, alphabet=d + 'X', dir='l2r', period=1, kw={'alphabet': d + 'X'},
                         ncheck=1, check=d + 'X', luhn=False, swap=True, swapok=d + 'X', gen='calc_check_digit', special='X'))
